@@ -12,7 +12,7 @@ use serde_json::json;
 
 pub const SERDE_TYPES: [usize; 18] = [0, 1, 2, 3, 4, 5, 6, 7, 8, 9, 10, 11, 12, 13, 14, 15, 17, 18];
 
-fn case_typed<S: Spec>(sub: &str, id: u64, forced: Option<(usize, bool)>, r: &mut Report) {
+fn case_typed<S: Spec>(sub: &str, id: u64, forced: Option<(usize, bool)>, first_op: Option<Op>, r: &mut Report) {
     let mut p = Prng::new(id);
     let wb = (S::FAMILY.native_bits() / 8) as usize;
     let bw = S::FAMILY.block_words();
@@ -64,6 +64,9 @@ fn case_typed<S: Spec>(sub: &str, id: u64, forced: Option<(usize, bool)>, r: &mu
     let cont = {
         let n = p.range(4, 24) as usize;
         let mut c = gen_history::<S>(&mut p, n);
+        if let Some(f) = &first_op {
+            c.insert(0, f.clone());
+        }
         if bw > 1 {
             c.push(Op::Fill(2 * bw * wb + p.below(9) as usize));
             c.push(Op::U32);
@@ -147,11 +150,14 @@ fn case(sub: &str, id: u64, r: &mut Report) {
             let ti = (id / 4096) as usize;
             let idx = ((id % 4096) / 2) as usize;
             let half = id % 2 == 1;
-            with_spec!(ti, S => { if S::HAS_SERDE { case_typed::<S>(sub, id, Some((idx, half)), r) } });
+            // every snapshot position is continued with each kind of first operation
+            for first in [Op::U32, Op::U64, Op::Fill(1), Op::Fill(9)] {
+                with_spec!(ti, S => { if S::HAS_SERDE { case_typed::<S>(sub, id, Some((idx, half)), Some(first.clone()), r) } });
+            }
         }
         _ => {
             let ti = SERDE_TYPES[Prng::new(id ^ 0x7171).below(18) as usize];
-            with_spec!(ti, S => { if S::HAS_SERDE { case_typed::<S>(sub, id, None, r) } });
+            with_spec!(ti, S => { if S::HAS_SERDE { case_typed::<S>(sub, id, None, None, r) } });
         }
     }
 }
@@ -174,7 +180,7 @@ pub fn run(ctx: &Ctx, only: Option<&Only>) -> Report {
     }
     let mut total = par(ctx.threads, |t, r| {
         for (k, &id) in ids.iter().enumerate() {
-            if k % ctx.threads == t {
+            if k % ctx.threads == t && ctx.keep(k as u64) {
                 run_case("index", id, r, &|id, r: &mut Report| case("index", id, r));
             }
         }
